@@ -18,3 +18,40 @@ Definition ranges_in_view (n : N) (l : list (N * N)) : bool := forallb (range_in
 Definition lane_within (n : N) (start width : N) : bool :=
   let lo := start / 8 in let hi := (start + width + 7) / 8 in
   (hi - lo <=? 16) && (hi <=? n).
+
+(** ** Constructor families of [View] (try_from_slice, try_from_mut_slice, try_from_boxed,
+    to_boxed, copy_to_slice, and the owned packet conversions try_into_udp / try_into_scmp /
+    into_raw), as observed from outside: (class, numbers) with class 1 = Ok, 0 = Err,
+    99 = panic.
+
+    An owned view owns EXACTLY the bytes its size function reported -- for the fixed-size views
+    a [Box<[u8]>] of another length is reinterpreted as [Box<[u8; N]>] (undefined behaviour,
+    deallocation with the wrong layout), for the slice-backed ones the view would silently own
+    bytes it did not report.  A borrowed view is the first [required] bytes of the input and the
+    rest starts right behind it. *)
+Definition owned_exact (input_len required reported owned : N) : bool :=
+  (reported =? required) && (owned =? required) && (input_len =? required).
+Definition slice_cut_exact (input_len required vl rl vo ro : N) : bool :=
+  (vl =? required) && (vo =? 0) && (ro =? required) && (vl + rl =? input_len).
+
+(** [req] = what has_required_size returned on the same input: Some n | None (refused).
+    [fam]: 0 try_from_slice, 1 try_from_mut_slice, 2 try_from_boxed, 3 to_boxed (of the borrowed
+    view), 4 copy_to_slice into [arg] bytes, 5 Box<Raw>::try_into_udp, 6 Box<Raw>::try_into_scmp,
+    7 Box<Udp/Scmp packet>::into_raw *)
+Definition ctor_obs_ok (input_len : N) (req : option N) (fam arg : N) (o : N * list N) : bool :=
+  match o with
+  | (0, _) => match fam, req with 4, Some n => arg <? n | _, _ => true end
+  | (1, l) =>
+    match req with
+    | None => false                       (* a constructor accepted what the size function refused *)
+    | Some n =>
+      match fam, l with
+      | 0, [vl; rl; vo; ro] | 1, [vl; rl; vo; ro] => slice_cut_exact input_len n vl rl vo ro
+      | 2, [rep; own] | 5, [rep; own] | 6, [rep; own] | 7, [rep; own] => owned_exact input_len n rep own
+      | 3, [rep; own] => (rep =? n) && (own =? n)
+      | 4, [vl; rl; same] => (vl =? n) && (vl + rl =? arg) && (same =? 1)
+      | _, _ => false
+      end
+    end
+  | _ => false                            (* panic *)
+  end.
